@@ -315,7 +315,12 @@ func TestC07_P_FailingSource(t *testing.T) {
 		transient := rapid.IntRange(0, 4).Draw(t, "transientSourceError") == 0
 		var srcErr error = &ioFault{what: "source reader", inner: faultKinds[kind].Inner}
 		if transient {
-			srcErr = []error{syscall.EINTR, syscall.EAGAIN, fmt.Errorf("read: %w", syscall.EINTR), srcErr}[rapid.IntRange(0, 3).Draw(t, "transientValue")]
+			vals := []error{syscall.EINTR, syscall.EAGAIN, fmt.Errorf("read: %w", syscall.EINTR), srcErr}
+			if failAfter > 0 && ck.CS > 0 {
+				// a file that is being appended to: its end was reached once, and then there was more
+				vals = append(vals, io.EOF, io.EOF)
+			}
+			srcErr = vals[rapid.IntRange(0, len(vals)-1).Draw(t, "transientValue")]
 		}
 		mk := func() *failingSource {
 			return &failingSource{data: data, failAfter: failAfter, together: false, err: srcErr, transient: transient}
